@@ -28,7 +28,7 @@ def gen_field(r, allow_conflict=False, plain_wrapper=False):
     f = {"ty": ft, "attr": attr, "conflict": None}
     if allow_conflict:
         ft = r.choice(INT_FIELDS)
-        f = {"ty": ft, "attr": "plain", "conflict": r.choice([("skip", "compact"), ("compact", "encoded_as"), ("skip", "encoded_as"), ("skip", "compact", "encoded_as")])}
+        f = {"ty": ft, "attr": "plain", "conflict": r.choice([("skip", "compact"), ("compact", "encoded_as"), ("skip", "encoded_as"), ("skip", "compact", "encoded_as"), ("compact", "skip")]), "onelist": r.random() < 0.4}
     return f
 
 
@@ -39,6 +39,10 @@ def field_attrs(f):
         names = () if f["attr"] == "plain" else (f["attr"],)
     if f["attr"] == "as_plain":
         return '#[codec(encoded_as = "crate::types::Plain<%s>")]' % f["ty"][0], ("encoded_as",)
+    if f.get("conflict") and f.get("onelist"):
+        # the conflicting attributes in ONE #[codec(..)] list
+        items = ["skip" if n == "skip" else "compact" if n == "compact" else 'encoded_as = "<%s as parity_scale_codec::HasCompact>::Type"' % f["ty"][0] for n in names]
+        return "#[codec(%s)]" % ", ".join(items), names
     out = []
     for n in names:
         if n == "skip":
